@@ -15,6 +15,32 @@ RULES = {
 }
 
 
+def exchange_of(fn):
+    """(node, a, b) for the single exchange of two positions of self.v in `fn`: `self.v.swap(a, b)`, or written by hand as
+    `self.v[a] = X; self.v[b] = Y` where X was read from self.v[b] and Y from self.v[a] before either write. a, b are nodes."""
+    from ..rulelib import resolver_of
+    t = tree_of(fn)
+    R = resolver_of(fn)
+    sw = self_method_calls(fn, "v", ["swap"])
+    ws = [(w, idx) for (w, f, idx) in writes_to_self(fn, "v")]
+    if len(sw) == 1 and not ws:
+        return (sw[0], sw[0]["args"][0], sw[0]["args"][1], [])
+    if not sw and len(ws) == 2 and all(w["k"] == "Assign" and len(idx) == 1 for (w, idx) in ws):
+        (w1, i1), (w2, i2) = ws
+        a, b = nf.nf(i1[0], True, res=R), nf.nf(i2[0], True, res=R)
+        x, y = nf.nf_def(w1["r"], R), nf.nf_def(w2["r"], R)
+        # the values written were read (into immutable locals) before the first write
+        def read_before(w):
+            r = nf.strip_casts(w["r"])
+            if r["k"] != "Path" or "local" not in r["res"]:
+                return False
+            let = R.lets.get(r["res"]["local"])
+            return let is not None and hir_dominates(t, let, w1) and hir_dominates(t, let, w2)
+        if a != b and x == "self.v[%s]" % b and y == "self.v[%s]" % a and read_before(w1) and read_before(w2) and t.parent.get(id(w1)) is t.parent.get(id(w2)):
+            return (w1, i1[0], i2[0], [w1, w2])
+    return None
+
+
 def run(ctx, facts):
     for k, v in RULES.items():
         ctx.rule(k, v)
@@ -30,10 +56,14 @@ def run(ctx, facts):
         fid = FY + name
         if inline.absorbed(facts, fid):
             continue     # a new private helper whose every call was inlined: its writes are judged in its callers
+        ex = exchange_of(fn) if name == "next" else None
         for (w, f, idx) in writes_to_self(fn, "v"):
             n += 1
             if name == "reset":
                 continue     # checked by RESET (Iota over the full range)
+            if ex is not None and any(w is x_ for x_ in ex[3]):
+                ctx.ok("WRITERS", fid, "v[%s] written as one half of an exchange of two positions" % nf.nf(idx[0], True), hirq.loc(w))
+                continue
             ctx.violation("WRITERS", fid, "v assigned", hirq.loc(w), "`%s` assigns to the permutation array outside reset" % nf.nf(w)[:60])
         for m in self_method_calls(fn, "v"):
             if not m.get("recv_ty", "").startswith("&mut "):
@@ -88,10 +118,10 @@ def run(ctx, facts):
     from ..rulelib import resolver_of
     R = resolver_of(nx)
     RNG = hirq.show_pat(nx["params"][1]["pat"])
-    sw = self_method_calls(nx, "v", ["swap"])
+    ex = exchange_of(nx)
     idx_forms = []
-    if len(sw) == 1:
-        idx_forms = [nf.nf(a, casts=False, res=R) for a in sw[0]["args"] if nf.nf(a, True, res=R) != "self.lastidx"]
+    if ex is not None:
+        idx_forms = [nf.nf(a, casts=False, res=R) for a in (ex[1], ex[2]) if nf.nf(a, True, res=R) != "self.lastidx"]
     canon = lambda s_: s_.replace(" ", "")
     U = "self.unif_01.sample(%s)" % RNG
     good_forms = {canon("(self.lastidx + ((((self.m - self.lastidx) as f64) * %s) as usize))" % U), canon("(self.lastidx + ((%s * ((self.m - self.lastidx) as f64)) as usize))" % U),
@@ -107,7 +137,7 @@ def run(ctx, facts):
                       "the drawn index is `%s` (unif_01 = %s): not the shape for which idx in [lastidx, m-1] is guaranteed — e.g. adding lastidx in floating point lets the sum round up to m (out-of-bounds for a generator output at the top of the unit interval)"
                       % (idx_forms, unif))
     # DRAWSHAPE
-    swaps = [m for m in self_method_calls(nx, "v", ["swap"])]
+    swaps = [ex[0]] if ex is not None else []
     good = False
     msg = ""
     if len(swaps) == 1 and "expr" in body:
@@ -115,7 +145,7 @@ def run(ctx, facts):
         # what the returned local WAS computed from (its initialiser, read at the position of its `let`)
         d_ = R.defs.get(tail["res"]["local"]) if tail["k"] == "Path" and "local" in tail["res"] else None
         ret = nf.nf(d_ if d_ is not None else body["expr"], True, res=R)
-        args = {nf.nf(a, True, res=R) for a in swaps[0]["args"]}
+        args = {nf.nf(a, True, res=R) for a in (ex[1], ex[2])}
         other = [a for a in args if a != "self.lastidx"]
         # the returned value must have been read before the swap: it is a local whose let precedes the swap
         read_before = False
